@@ -1049,8 +1049,9 @@ class Frame:
         l = s.split(l)
         r = s.split(r)
         if not has_sym(l) and not has_sym(r):
+            kv = lambda x: dict.fromkeys(x).keys() if isinstance(x, KeysList) else x       # keys() of a dict: a real (set-like) key view
             try:
-                return CMP[T](l, r)
+                return CMP[T](kv(l), kv(r))
             except Exception as ex:
                 raise PyExc(ex)
         if T in (ast.Eq, ast.NotEq):
